@@ -65,6 +65,13 @@ def resolve_case(mcompile: T.Any, MesonException: T.Any, univ: T.List[T.Dict[str
     (bld / 'meson-info').mkdir(parents=True, exist_ok=True)
     ents = [mp.intro_entry(univ[i - 1], str(src), str(bld)) for i in order]
     (bld / 'meson-info' / 'intro-targets.json').write_text(json.dumps(ents))
+    # meson-info.json as `meson setup` writes it next to the intro files (source / build / info directories)
+    (bld / 'meson-info' / 'meson-info.json').write_text(json.dumps({
+        'meson_version': {'full': '1.12.99', 'major': 1, 'minor': 12, 'patch': 99},
+        'directories': {'source': str(src), 'build': str(bld), 'info': str(bld / 'meson-info')},
+        'introspection': {'version': {'full': '1.0.0', 'major': 1, 'minor': 0, 'patch': 0},
+                          'information': {'targets': {'file': 'intro-targets.json', 'updated': True}}},
+        'build_files_updated': False, 'error': False}))
     intro = mcompile.parse_introspect_data(bld)
     id2idx = {mp.real_id(univ[i - 1]): i for i in order}
     r: T.List[int] = []
